@@ -149,7 +149,11 @@ def check_resume(ctx, R="C13.resume"):
             if isinstance(i, ast.If) and isinstance(i.test, ast.BoolOp) and isinstance(i.test.op, ast.And) and {unparse(v) for v in i.test.values} == {f"{resv} is BlockConclusion.FINISHED", f"{blockv} is not {bodyp}"}:
                 under = any(unparse(t_) == concv and p_ for t_, p_ in lib.guard_tests(i, rt))
                 cont = any(isinstance(x, ast.Continue) for x in i.body)
-                ret = any(isinstance(x, ast.Return) and x.value is not None and unparse(x.value) == resv for x in i.orelse)
+                after = []
+                blk = _block(i)
+                if any(x is i for x in blk):
+                    after = blk[[x is i for x in blk].index(True) + 1 :][:1]
+                ret = any(isinstance(x, ast.Return) and x.value is not None and unparse(x.value) == resv for x in list(i.orelse) + after)
                 good_c = under and cont and ret
     if good_c:
         ctx.ok(R, rt, "only a FINISHED handler resumes the scan; anything else concludes the statement with its flag")
